@@ -64,6 +64,11 @@ def run(ctx):
     src_of = {}
     for reg, ds in latched.items():
         ok = all(q.state_of(d) == disp and not d.guard for d in ds) and len({d.rhs.canon() for d in ds}) == 1
+        # ... and in the clock domain of the FSM whose state enables the latch: a latch clocked elsewhere samples the inputs at
+        # an edge that has nothing to do with the request strobe
+        ctx.ob('C45.latch-domain', 'TransactionPacketGenerator.latch<-%s.domain' % ds[0].rhs.canon(),
+               all(d.domain == fsm.domain for d in ds), ds[0].loc,
+               'the parameter register %s must be clocked by the domain of the FSM (%s): %s' % (reg, fsm.domain, sorted({d.domain for d in ds})))
         ctx.ob('C45.latch-only-in-dispatch', 'TransactionPacketGenerator.latch<-' + ds[0].rhs.canon(), ok, ds[0].loc,
                'parameter registers may only be written in the dispatch state: %s' % [q.fmt(d) for d in ds])
         src_of[reg] = ds[0].rhs.canon()
